@@ -856,3 +856,187 @@ def verify_collects(rep, vmod, rule, rule_sel):
               'no error -> True; exactly one -> that error; several -> '
               'MultipleInvalid(iface, candidate, excs)' if not p_rep else
               {'problems': sorted(set(p_rep))[:4]}, construct='report', node=f)
+
+
+# ---------------------------------------------------------------------------
+# VerifyingBase (Python twin): generation snapshot and comparison
+
+def listed_attr_source(ps, value, attr):
+    """`value` denotes [x.<attr> for x in SRC] - written as a comprehension or
+    as a list filled by a loop on this path.  Returns the text of SRC, or None."""
+    v = value
+    if isinstance(v, ast.Call) and dotted(v.func) in ('list', 'tuple') and len(v.args) == 1:
+        v = v.args[0]
+    if isinstance(v, (ast.ListComp, ast.GeneratorExp)) and len(v.generators) == 1:
+        g = v.generators[0]
+        if not g.ifs and isinstance(g.target, ast.Name) and \
+                match('%s.%s' % (g.target.id, attr), v.elt) is not None:
+            return nt(g.iter)
+        return None
+    if nt(v) in ('[]', 'list()'):
+        srcs = [c[5:-1] for c, t, p in ps.order if c.startswith('ITER(')]
+        for src in srcs:
+            each = 'EACH(%s)' % src
+            apps = [e for e in ps.events if e.kind == 'call' and
+                    nt(e.r) == '[].append(%s.%s)' % (each, attr)]
+            looped = ps.fact('ITER(%s)' % src)
+            if looped and len(apps) == 1 and not each_conditions(ps, src):
+                return src
+            if looped is False and not apps:
+                return src
+    return None
+
+
+def verifying_py(rep, mod, rule):
+    vb = find_def(mod, 'VerifyingBase')
+    from ..pyfront import methods_of
+    vms = methods_of(vb)
+    f = vms.get('_verify')
+    rep.require(f is not None, 'VerifyingBase._verify vanished')
+    probs = []
+    kinds = set()
+    for ps in normal(summaries(f)):
+        cmpf = None
+        for c, t, p in ps.order:
+            try:
+                e = _p(c)
+            except SyntaxError:
+                continue
+            if isinstance(e, ast.Compare) and len(e.ops) == 1 and \
+                    isinstance(e.ops[0], ast.Eq):
+                sides = [e.left, e.comparators[0]]
+                rec = [s for s in sides if nt(s) == 'self._verify_generations']
+                cur = [s for s in sides if nt(s) != 'self._verify_generations']
+                if rec and cur:
+                    cmpf = (cur[0], t)
+        chg = [e for e in ps.events if e.kind == 'call' and
+               nt(e.r.func) == 'self.changed']
+        if cmpf is None:
+            probs.append('a path does not compare the current generations with '
+                         'the recorded ones')
+            continue
+        src = listed_attr_source(ps, cmpf[0], '_generation')
+        if src != 'self._verify_ro':
+            probs.append('compares `%s` (generations of `%s`) with the recorded '
+                         'generations' % (nt(cmpf[0])[:50], src))
+            continue
+        equal = cmpf[1]
+        kinds.add(equal)
+        if equal and chg:
+            probs.append('calls changed() although the generations are equal')
+        if not equal and len(chg) != 1:
+            probs.append('differing generations do not lead to changed()')
+    rep.check(rule, 'VerifyingBase._verify', not probs and kinds == {True, False},
+              'compares [r._generation for r in self._verify_ro] with '
+              'self._verify_generations and calls self.changed() on any difference'
+              if not probs else {'problems': sorted(set(probs))[:3]},
+              construct='compare', node=f)
+    ch = vms.get('changed')
+    probs = []
+    n = 0
+    for ps in normal(summaries(ch)):
+        n += 1
+        sup = [e for e in ps.events if e.kind == 'call' and
+               nt(e.r) in ('LookupBaseFallback.changed(self, originally_changed)',
+                           'super().changed(originally_changed)')]
+        ro = [e for e in ps.events if e.kind == 'store' and nt(e.r) == 'self._verify_ro']
+        gen = [e for e in ps.events if e.kind == 'store' and
+               nt(e.r) == 'self._verify_generations']
+        if len(sup) != 1:
+            probs.append('the caches are not dropped (base changed() not called)')
+        if len(ro) != 1 or nt(ro[0].val) not in ('self._registry.ro[1:]',
+                                                 'tuple(self._registry.ro[1:])',
+                                                 'list(self._registry.ro[1:])'):
+            probs.append('_verify_ro = %s' % [nt(e.val)[:50] for e in ro])
+            continue
+        if len(gen) != 1:
+            probs.append('generations stored %d times' % len(gen))
+            continue
+        src = listed_attr_source(ps, gen[0].val, '_generation')
+        if src == 'self._verify_ro':
+            # read back from the attribute: must be after its store
+            reads = [e for e in ps.events if ps.index(e) < ps.index(ro[0]) and
+                     'self._verify_ro' in repr(e) and e is not ro[0]]
+            if ps.index(gen[0]) < ps.index(ro[0]) or reads:
+                probs.append('generations are taken before _verify_ro is replaced')
+        elif src != nt(ro[0].val) and src != 'self._registry.ro[1:]':
+            probs.append('generations of `%s`' % src)
+    rep.check(rule, 'VerifyingBase.changed', not probs and n >= 1,
+              're-snapshots _verify_ro = registry.ro[1:] and then the generations '
+              'of exactly those registries' if not probs else
+              {'problems': sorted(set(probs))[:3]}, construct='snapshot', node=ch)
+
+
+def setbases_links(rep, mod, rule):
+    """AdapterRegistry._setBases keeps the sub-registry links of the bases in
+    step with the new bases, then runs the base implementation."""
+    f = find_def(mod, 'AdapterRegistry._setBases')
+    site = 'AdapterRegistry._setBases'
+    OLD = "self.__dict__.get('__bases__', ())"
+    NEW = f.args.args[1].arg
+    p_old, p_un, p_ln, p_sup = [], [], [], []
+    kinds = set()
+    for ps in normal(summaries(f)):
+        its = iterated(ps)
+        for i in its:
+            if i not in (OLD, NEW):
+                p_old.append('walks `%s` (old bases are %s)' % (i[:60], OLD))
+        sup = [e for e in ps.events if e.kind == 'call' and
+               nt(e.r) == 'super()._setBases(%s)' % NEW]
+        if len(sup) != 1:
+            p_sup.append('base _setBases(%s) not run exactly once on a path' % NEW)
+        if OLD in its:
+            E = 'EACH(%s)' % OLD
+            rm = [e for e in ps.events if e.kind == 'call' and
+                  nt(e.r) == '%s._removeSubregistry(self)' % E]
+            kept = fact_cmp(ps, E, NEW, 'in')
+            if kept is None:
+                kinds.add('unlink')
+                if len(rm) != 1:
+                    p_un.append('an old base is not unlinked')
+            elif kept:
+                kinds.add('kept')
+                if rm:
+                    p_un.append('a base that stays is unlinked')
+            else:
+                kinds.add('unlink')
+                if len(rm) != 1:
+                    p_un.append('an old base that is no longer a base is not unlinked')
+            extra = [c for c in each_conditions(ps, OLD) if c != '%s in %s' % (E, NEW)]
+            if extra:
+                p_un.append('unlinking depends on `%s`' % extra[0][:50])
+        if NEW in its:
+            E = 'EACH(%s)' % NEW
+            ad = [e for e in ps.events if e.kind == 'call' and
+                  nt(e.r) == '%s._addSubregistry(self)' % E]
+            had = fact_cmp(ps, E, OLD, 'in')
+            if had is None or not had:
+                kinds.add('link')
+                if len(ad) != 1:
+                    p_ln.append('a new base is not linked')
+            else:
+                kinds.add('had')
+            extra = [c for c in each_conditions(ps, NEW) if c != '%s in %s' % (E, OLD)]
+            if extra:
+                p_ln.append('linking depends on `%s`' % extra[0][:50])
+            if sup and ad and ps.index(ad[0]) > ps.index(sup[0]):
+                pass
+    for lp in walk_local(f):
+        if isinstance(lp, ast.For) and \
+                [n for n in walk_local(lp) if isinstance(n, (ast.Break, ast.Return))]:
+            p_un.append('a walk over the bases can end early')
+    if not (p_old or p_un or p_ln) and not {'unlink', 'link'} <= kinds:
+        p_un.append('path kinds %s' % sorted(kinds))
+    rep.check(rule, site, not p_old, 'old bases = %s' % OLD if not p_old else
+              {'problems': sorted(set(p_old))}, construct='old', node=f)
+    rep.check(rule, site, not p_un,
+              'unlinks from every old base that is not among the new bases'
+              if not p_un else {'problems': sorted(set(p_un))[:3]}, construct='unlink',
+              node=f)
+    rep.check(rule, site, not p_ln,
+              'links to every new base that was not among the old (direct) bases'
+              if not p_ln else {'problems': sorted(set(p_ln))[:3]}, construct='link',
+              node=f)
+    rep.check(rule, site, not p_sup, 'runs the base _setBases(bases) on every path'
+              if not p_sup else {'problems': sorted(set(p_sup))}, construct='super',
+              node=f)
